@@ -2569,6 +2569,11 @@ class FnCtx:
                 elif ct[0] == "agg" and ct[1] == "vec":
                     out.append(({atom0: 1}, -len(ct[3])))
                     out.append(({atom0: -1}, len(ct[3])))
+                elif ct[0] == "param":
+                    # a vector parameter moved into a local and never resized there keeps the parameter's length
+                    pl_ = ("L", "param", ct[1])
+                    out.append(({atom0: 1, pl_: -1}, 0))
+                    out.append(({atom0: -1, pl_: 1}, 0))
                 continue
             # one push per iteration of a loop over a collection with a length atom
             if len(muts) == 1 and (muts[0].callee or "").endswith("Vec::push"):
